@@ -3,7 +3,7 @@
 cd "$(dirname "$0")/.."
 [ -f coq/Makefile ] || sh bin/setup.sh >/dev/null 2>&1
 seeds="$1"; shift
-props="${*:-C01 C02 C03 C04 C05 C06 C07 C08 C09 C10 C11 C12 C13 C14 C15 C16 C18 C19}"
+props="${*:-C01 C02 C03 C04 C05 C06 C07 C08 C09 C10 C11 C12 C13 C14 C15 C16 C17 C18 C19 C20}"
 for s in $seeds; do for p in $props; do
   out=$(VERIF_SEED=$s bin/check --property $p 2>&1)
   echo "$out" | grep -E "^(VIOLATION|C[0-9]+ quick)" | sed "s/^/seed=$s /"
